@@ -389,7 +389,14 @@ def judge(ctx, c, real, model, build, stats):
         elif cls == "crash" and "covertree.hpp" in str(real.get("detail", "")) and \
                 "signed integer overflow" in str(real.get("detail", "")):
             sig = F26_SIG              # all samples coincide + cover tree: `max_scale - 1` at INT_MIN
-        ctx.violation(pub(c), "tapkee::embed %s [%s; model: %s]" % (what, where, model), signature=sig)
+        cc = c
+        if sig is None and cls in ("crash", "hang", "undoc") and stats.get("shrunk", 0) < 2 and "exe_" + build in stats:
+            stats["shrunk"] = stats.get("shrunk", 0) + 1
+            try:
+                cc = shrink_case(ctx, stats["exe_" + build], c, cls)
+            except Exception:
+                cc = c
+        ctx.violation(pub(cc), "tapkee::embed %s [%s; model: %s]" % (what, where, model), signature=sig)
         return
     if cls == "ok":
         want_cols = D if c["m"] == "passthru" else d
@@ -428,6 +435,38 @@ def judge(ctx, c, real, model, build, stats):
     ctx.mismatch(pub(c), "implementation throws %s, model says %s [%s]" % (e, model, where))
 
 
+def shrink_case(ctx, exe, c, cls, budget=8):
+    """smaller request that still makes this build fail in the same class (crash / hang / undoc)"""
+    best = dict(c)
+    tried = 0
+
+    def fails(cand):
+        r = run_chunk(ctx, exe, [cand], 10, {"OMP_NUM_THREADS": "2", "UBSAN_OPTIONS": "print_stacktrace=1",
+                                              "ASAN_OPTIONS": "detect_leaks=0:abort_on_error=0:"
+                                                              "allocator_may_return_null=1:handle_abort=1"})
+        return r[cand["id"]]["cls"] == cls
+
+    cands = []
+    for N2 in (4, 5, 6, 8, 12):
+        if N2 < best["N"] and best["d"] < N2 and best["k"] < N2:
+            cands.append({"N": N2})
+    cands += [{"kind": "generic"}, {"nm": "brute"}, {"D": max(1, min(best["D"], 2))}]
+    for ch in cands:
+        if tried >= budget:
+            break
+        if all(best.get(k) == v for k, v in ch.items()):
+            continue
+        cand = dict(best, **ch)
+        cand.pop("X", None)
+        if "lr" in cand.get("p", {}) or cand["m"] == "tsne":
+            if "N" in ch:
+                continue                    # scalar bounds depend on N: keep N
+        tried += 1
+        if fails(cand):
+            best = cand
+    return best
+
+
 def evaluate(ctx, exes, mexe, cases, stats, wd=10, workers=5):
     """exes = {"san": path, "dbg": path}"""
     results = {}
@@ -445,6 +484,8 @@ def evaluate(ctx, exes, mexe, cases, stats, wd=10, workers=5):
                 c = next(x for x in cases if x["id"] == cid)
                 ctx.violation(pub(c), "find_neighbors returned an entry that is not a sample index: " + nb["bad"])
     model = run_model(ctx, mexe, cases, HEAD_VARIANT, lens)
+    for b, exe in exes.items():
+        stats["exe_" + b] = exe
     for c in cases:
         for b in exes:
             judge(ctx, c, results[b][c["id"]], model[c["id"]], b, stats)
@@ -570,6 +611,8 @@ def run(ctx):
     n = 2 * len(cases)
     if ctx.is_unshown() and not ctx.has_violation():
         n += 2 * search_phase(ctx, exes, mexe, rng, stats, 12 if quick else 40)
+    for b in exes:
+        stats.pop("exe_" + b, None)
     distinct = {key_of(c) for c in cases if model[c["id"]]["cls"] in ("shape", "crash")}
     hist = {"generators": {"corpus": ncorpus, "boundary": nboundary, "random": nrandom},
             "method": {}, "N": {}, "kind": {}, "neighbors_method": {}, "eigen_method": {}, "stats": stats}
